@@ -464,10 +464,18 @@ pub fn random_parametric(rng: &mut Rng) -> Cfg {
 }
 
 pub fn random_cfg_case(rng: &mut Rng, idx: u64) -> GCase {
-    if rng.chance(1, 4) {
-        random_parametric(rng).to_case(&format!("genparam{idx}"))
+    let (cfg, name) = if rng.chance(1, 4) {
+        (random_parametric(rng), format!("genparam{idx}"))
     } else {
-        random_cfg(rng).to_case(&format!("gencfg{idx}"))
+        (random_cfg(rng), format!("gencfg{idx}"))
+    };
+    let g = cfg.to_case(&name);
+    // the engine has no productivity pruning (finding P1): grammars in which the reference
+    // model had to prune something reachable are a class of their own
+    match crate::ref_earley::Bnf::from_cfg(&cfg) {
+        Ok(b) if b.pruned || !b.start_productive() => g.tag("unproductive"),
+        Ok(_) => g,
+        Err(_) => g.tag("productivity_unknown"),
     }
 }
 
